@@ -129,6 +129,89 @@ def _iter_sentinel_loop(st: ast.stmt) -> Optional[List[ast.stmt]]:
     return [loop]
 
 
+def fuse_comprehension_loops(fn: ast.AST) -> bool:
+    """`P = (ELT for .. in .. if ..)` (generator expression or list comprehension bound once to a local that is used nowhere
+    else) followed by `for TGT in P: BODY` (no else, no break that leaves it) is the comprehension's own loop nest with
+    `TGT = ELT; BODY` inside - provided BODY assigns nothing the comprehension reads.  Rewrites `fn` in place."""
+    changed = False
+    uses: Dict[str, List[ast.Name]] = {}
+    for n in ast.walk(fn):
+        if isinstance(n, ast.Name):
+            uses.setdefault(n.id, []).append(n)
+
+    def blocks(node):
+        for fld in ("body", "orelse", "finalbody"):
+            sub = getattr(node, fld, None)
+            if isinstance(sub, list) and sub and isinstance(sub[0], ast.stmt):
+                yield sub
+        if isinstance(node, ast.Try):
+            for h in node.handlers:
+                yield h.body
+
+    def leaves_loop(body) -> bool:
+        def walk_(stmts, depth):
+            for st in stmts:
+                if isinstance(st, ast.Break) and depth == 0:
+                    return True
+                if isinstance(st, (ast.FunctionDef, ast.AsyncFunctionDef, ast.ClassDef)):
+                    continue
+                d2 = depth + 1 if isinstance(st, (ast.For, ast.While, ast.AsyncFor)) else depth
+                for b in blocks(st):
+                    if walk_(b, d2 if b is getattr(st, "body", None) else depth):
+                        return True
+            return False
+        return walk_(body, 0)
+
+    def visit(block: List[ast.stmt]) -> None:
+        nonlocal changed
+        i = 0
+        while i < len(block):
+            st = block[i]
+            if isinstance(st, ast.For) and not st.orelse and isinstance(st.iter, ast.Name) and len(uses.get(st.iter.id, [])) == 2:
+                nm = st.iter.id
+                j = next((k for k in range(i - 1, -1, -1) if isinstance(block[k], ast.Assign) and len(block[k].targets) == 1 and isinstance(block[k].targets[0], ast.Name)
+                          and block[k].targets[0].id == nm), None)
+                comp = block[j].value if j is not None else None
+                if isinstance(comp, (ast.GeneratorExp, ast.ListComp)) and not any(g.is_async for g in comp.generators) and not leaves_loop(st.body):
+                    reads = {x.id for x in ast.walk(comp) if isinstance(x, ast.Name) and isinstance(x.ctx, ast.Load)}
+                    comp_targets = {x.id for g in comp.generators for x in ast.walk(g.target) if isinstance(x, ast.Name)}
+                    between = block[j + 1:i]
+                    writes = {x.id for b in [st.body, between] for s_ in b for x in ast.walk(s_) if isinstance(x, ast.Name) and isinstance(x.ctx, (ast.Store, ast.Del))}
+                    writes |= {x.id for x in ast.walk(st.target) if isinstance(x, ast.Name)}
+                    mutated = {c.func.value.id for b in [st.body, between] for s_ in b for c in ast.walk(s_) if isinstance(c, ast.Call) and isinstance(c.func, ast.Attribute)
+                               and isinstance(c.func.value, ast.Name)} | {x.value.id for b in [st.body, between] for s_ in b for x in ast.walk(s_)
+                                                                            if isinstance(x, ast.Subscript) and isinstance(x.ctx, (ast.Store, ast.Del)) and isinstance(x.value, ast.Name)}
+                    def effectful(stmts) -> bool:
+                        return any(isinstance(x, (ast.Call, ast.Await, ast.Yield, ast.YieldFrom)) or
+                                   (isinstance(x, (ast.Attribute, ast.Subscript)) and isinstance(x.ctx, (ast.Store, ast.Del))) for s_ in stmts for x in ast.walk(s_))
+                    # a generator expression is lazy (its elements are produced between the iterations of the loop anyway); only
+                    # what runs between its creation and the loop could change what its first iterable evaluates to.  A list
+                    # comprehension is complete before the loop starts: fusing is exact only when the loop body has no effects
+                    if effectful(between) or (isinstance(comp, ast.ListComp) and effectful(st.body)):
+                        i += 1
+                        continue
+                    if not (reads - comp_targets) & (writes | mutated) and not (comp_targets & {x.id for s_ in st.body for x in ast.walk(s_) if isinstance(x, ast.Name)} - reads):
+                        inner: List[ast.stmt] = [ast.copy_location(ast.Assign([copy.deepcopy(st.target)], copy.deepcopy(comp.elt)), st)] + list(st.body)
+                        for g in reversed(comp.generators):
+                            for cond in reversed(g.ifs):
+                                inner = [ast.copy_location(ast.If(copy.deepcopy(cond), inner, []), st)]
+                            inner = [ast.copy_location(ast.For(copy.deepcopy(g.target), copy.deepcopy(g.iter), inner, []), st)]
+                        for x in inner:
+                            ast.fix_missing_locations(x)
+                        block[i:i + 1] = inner
+                        del block[j]
+                        changed = True
+                        i = j
+                        continue
+            for b in blocks(st):
+                if not isinstance(st, (ast.FunctionDef, ast.AsyncFunctionDef, ast.ClassDef)):
+                    visit(b)
+            i += 1
+
+    visit(fn.body)
+    return changed
+
+
 def _walrus_loop(st: ast.stmt) -> Optional[List[ast.stmt]]:
     """`while (x := E) [op K]: BODY` (no else) is `while True: x = E; if not (x [op K]): break; BODY`"""
     if not (isinstance(st, ast.While) and not st.orelse):
